@@ -24,7 +24,7 @@ _enum = None
 
 def base_sf(version, kind):
     sf = [["TITLE", "t"], ["OFFSET", "0.125"], ["BPMS", "0.000=120.000,\n4.000=240.000,\n8.000=60"], ["STOPS", "1.000=0.100"], ["DISPLAYBPM", "100:200"]]
-    if kind == "SSC" and version is not None:
+    if version is not None:
         sf.insert(0, ["VERSION", version])
     if kind == "SSC":
         sf += [["DELAYS", "3.000=0.300"], ["WARPS", "5.000=0.500"]]
@@ -38,7 +38,7 @@ def enumeration():
     if _enum is None:
         out = []
         for kind in ("SM", "SSC"):
-            for v in (VERSIONS if kind == "SSC" else [None]):
+            for v in (VERSIONS if kind == "SSC" else [None, "0.69", "0.7", "0.83"]):
                 for ck in ("none", "SM", "SSC"):
                     states = [dict()]
                     if ck == "SSC":
@@ -74,7 +74,7 @@ def gen(rng, i, tier):
     if i < len(en):
         return en[i]
     kind = rng.choice(["SM", "SSC", "SSC", "SSC"])
-    v = rng.choice(VERSIONS + ["0.699", "0.71", "7", "0.07", "00.7"]) if kind == "SSC" else None
+    v = rng.choice(VERSIONS + ["0.699", "0.71", "7", "0.07", "00.7"]) if kind == "SSC" else rng.choice([None, None, "0.7", "0.83", "1.0"])
     sf = []
     if v is not None:
         sf.append(["VERSION", v])
